@@ -288,6 +288,14 @@ func c16Geoms(c *fw.Ctx, idx int) {
 	kind := gen.Kinds7[r.Intn(len(gen.Kinds7))]
 	layout := gen.PickLayout(r, c01Layouts)
 	g := gen.Shape(r, kind, layout, gen.AnyClass(r), gen.ShapeOpts{})
+	if kind == model.Point && g.C0 != nil && r.Chance(1, 12) {
+		// every ordinate the NaN that the WKB codecs use to spell POINT EMPTY: in a
+		// geometry it is a number like any other, the point is not empty
+		for i := range g.C0 {
+			g.C0[i] = math.Float64frombits(0x7FF8000000000000)
+		}
+		c.Count("points_of_empty_point_NaNs")
+	}
 	storage := r.Intn(3)
 	var hist []string
 	setIn := func() {
@@ -643,7 +651,23 @@ func c16EveryLength(c *fw.Ctx, idx int) {
 			}
 			c.SetInput(map[string]any{"type": fmt.Sprintf("%T", t), "layout": layout.String(), "coordinates": idx, "ordinate_i": "(i mod 9973) + 0.25"})
 			var cl geom.T
-			if c.Guard("panic", func() { cl = c01Clone(t) }) {
+			if c.Guard("panic", func() {
+				if idx%2 == 1 {
+					// a part handed out by an accessor is grown by its holder first: what
+					// it outgrew is the geometry's own array
+					switch x := t.(type) {
+					case *geom.Polygon:
+						if x.NumLinearRings() > 0 {
+							x.LinearRing(0).Reserve(idx + 50)
+						}
+					case *geom.MultiPolygon:
+						if x.NumPolygons() > 0 {
+							x.Polygon(0).Reserve(idx + 50)
+						}
+					}
+				}
+				cl = c01Clone(t)
+			}) {
 				return
 			}
 			c.Eval(1)
